@@ -1,0 +1,35 @@
+//go:build verif
+
+package client
+
+// VerifSizes reports the number of entries in the connection's per-exchange tables
+// (verification harness only; read-only).
+type VerifSizes struct {
+	TokenHandlers      int
+	MidHandlers        int
+	ResponseCache      int
+	MidLocks           int
+	BlockwiseReceiving int
+	BlockwiseSending   int
+	Observations       int
+	LimiterQueues      int
+}
+
+func (cc *Conn) VerifSizes() VerifSizes {
+	s := VerifSizes{
+		TokenHandlers: cc.tokenHandlerContainer.Length(),
+		MidHandlers:   cc.midHandlerContainer.Length(),
+		Observations:  cc.observationHandler.VerifSize(),
+		LimiterQueues: cc.Client.LimitParallelRequests.VerifQueues(),
+	}
+	if c, ok := cc.responseMsgCache.(*messageCache); ok {
+		s.ResponseCache = c.c.Length()
+	}
+	cc.msgIDMutex.ml.Lock()
+	s.MidLocks = len(cc.msgIDMutex.ma)
+	cc.msgIDMutex.ml.Unlock()
+	if cc.blockWise != nil {
+		s.BlockwiseReceiving, s.BlockwiseSending = cc.blockWise.VerifSizes()
+	}
+	return s
+}
